@@ -12,6 +12,7 @@ Pseudo-op (model only, not understood by the C harness): `mon` prints the flags 
 `IterMon` has raised on the case so far.
 -/
 import QbVerif.Model.MapSpec
+import QbVerif.Model.MapScript
 import QbVerif.Model.Hashtable
 import QbVerif.Model.Skiplist
 import QbVerif.Model.Trie
@@ -89,6 +90,34 @@ def parseOp : List String → Option Op
   | ["destroy"] => some .destroy
   | _ => none
 
+def parseSKey (s : String) : Option SKey :=
+  if s == "." then some .shown else (parseHex s).map .lit
+
+def parseSItem (s : String) : Option SItem :=
+  match s.splitOn ":" with
+  | [n, "rm", k] => do some ⟨← n.toNat?, .rm (← parseSKey k)⟩
+  | [n, "get", k] => do some ⟨← n.toNat?, .get (← parseSKey k)⟩
+  | [n, "put", k, v] => do some ⟨← n.toNat?, .put (← parseSKey k) (← v.toNat?) 0⟩
+  | [n, "put", k, v, l] => do some ⟨← n.toNat?, .put (← parseSKey k) (← v.toNat?) (← l.toNat?)⟩
+  | [n, "count"] => do some ⟨← n.toNat?, .count⟩
+  | _ => none
+
+def parseScript (s : String) : Option Script :=
+  if s == "-" then some [] else (s.splitOn ",").mapM parseSItem
+
+/-- `foreachs STOP SCRIPT [PREFIX]` -/
+def parseForeachs : List String → Option (Nat × Option Key × Script)
+  | ["foreachs", n, sc] => do some (← n.toNat?, none, ← parseScript sc)
+  | ["foreachs", n, sc, p] => do some (← n.toNat?, some (← parseHex p), ← parseScript sc)
+  | _ => none
+
+def showVisit (v : Visit) : String :=
+  s!" {toHex v.key} {v.val}" ++ String.join (v.inner.map fun r => " =" ++ showRes r)
+
+def showXRes : XRes → String
+  | .visited l c => s!"visit {l.length}" ++ String.join (l.map showVisit) ++ (if c then " end" else " stop")
+  | .fail r => showRes r
+
 def showFlags (f : IterMon.Flags) : String :=
   let l := (if f.memErr then ["memErr"] else []) ++ (if f.incomplete then ["incomplete"] else []) ++
     (if f.twice then ["twice"] else []) ++ (if f.invented then ["invented"] else []) ++
@@ -109,6 +138,16 @@ def step (orig : Bool) (st : Option Running) (ws : List String) : Option Running
     | some r =>
       if r.dead then (st, []) else
       if ws == ["mon"] then (st, [showFlags r.mon.flags]) else
+      if ws.head? == some "foreachs" then
+        match parseForeachs ws with
+        | none => (st, ["bad-op"])
+        | some (stop, pfx, sc) =>
+          -- the scripted traversal: the model's own iter_new / iter_next / scripted ops / iter_free
+          let (s', h, xr) := foreachsH r.impl.step scriptFuel r.st stop pfx sc
+          let dead := xr == .fail .uaf || xr == .fail .diverge
+          (some { r with st := s', mon := h.foldl (fun m p => IterMon.step m p.1 p.2.res) r.mon, dead := dead },
+           (histEvents h).map showEvent ++ [showXRes xr])
+      else
       match parseOp ws with
       | none => (st, ["bad-op"])
       | some op =>
